@@ -1,7 +1,9 @@
 """C18 SHA256(XOR) protocol: correct, resumable, canonical encodings."""
 import concurrent.futures
 import hashlib
+import json
 import re
+import shutil
 
 import os
 import sys
@@ -46,6 +48,10 @@ THEOREMS = [
     "Mpc.C18_hist_complete_session",
     "Mpc.C18_hist_faults_rejected",
     "Mpc.C18_hist_correct_partial",
+    "Mpc.C18_env_model_has_no_parameter",
+    "Mpc.C18_env_hist_eq",
+    "Mpc.C18_env_correct_partial",
+    "Mpc.C18_env_dependence_witness",
     "Mpc.C01_decode",
     "Mpc.C06_co_delivers",
 ]
@@ -91,6 +97,108 @@ NEED_HIST = (
        "hist_fault_rng_kind0", "hist_fault_rng_kind1", "hist_fault_rng_kind2", "hist_fault_malformed_cut",
        "hist_fault_malformed_extended", "hist_fault_before-own-step", "hist_fault_after-own-step",
        "hist_fault_followed-by-round123-of-other-session", "hist_fault_followed-by-step-of-other-session"])
+
+# THE ENVIRONMENT SWEEP (harness/cmd/c18/env.go): GOMAXPROCS values under which one complete four-round session per
+# curve must have been run with the right digest and the isolated run's values on every run of the check
+ENV_PROCS = [1, 2, 3, 5, 7, 12, 16, 24, 61]
+NEED_ENV = (
+    ["env_session_complete_procs_%d_%s" % (p, c) for p in ENV_PROCS for c in CURVES]
+    + ["env_session_complete_gc_-1", "env_session_complete_gc_100", "env_session_complete_gc_1",
+       "env_session_complete_plain", "env_session_complete_restart-everywhere",
+       # histories of interleaved sessions with failing steps, the environment changing between the steps
+       "env_histories_mixed", "env_mixed_environment_changes_between_steps", "env_mixed_k2", "env_mixed_k3",
+       "env_fault_g1_rng_err", "env_fault_e2_rng_err", "env_fault_g3_rng_err"]
+    + ["env_step_procs_%d" % p for p in ENV_PROCS] + ["env_step_gc_-1", "env_step_gc_100", "env_step_gc_1"])
+# calls through which a function can consult or depend on its environment (scheduler width, goroutines, pooled
+# memory, process environment)
+ENV_METHODS = ["GOMAXPROCS", "NumCPU", "NumGoroutine", "Gosched", "Getenv", "LookupEnv", "Wait", "Done", "Get", "Put",
+               "Lock", "Unlock", "Do"]
+ENV_TEXT = re.compile(r"^\s*go\s+(?:func\b|\w)|\bruntime\.\w+|\bsync\.(?:Pool|WaitGroup|Mutex|RWMutex|Once|Cond)\b|\bos\."
+                      r"(?:Getenv|LookupEnv|Environ)\b|\bbits\.UintSize\b|\bstrconv\.IntSize\b|\bunsafe\.Sizeof\b|"
+                      r"\bchan\b|\bselect\s*\{", re.M)
+
+
+def env_probe(ctx):
+    """STRUCTURAL PROBE (advisory): where the code reachable from the four round functions can see its execution
+    environment.  (1) call sites of runtime.GOMAXPROCS / NumCPU / ..., WaitGroup, sync.Pool, locks in the round
+    functions and in every function of package ot / circuit they call (gofacts callseq: same-package callees and
+    function literals -- the bodies of `go` statements -- inlined); (2) `go` statements, runtime.*, sync.*, os.Getenv,
+    word-size constants and channels in the non-test sources of sha2pc/, ot/, circuit/.  Whether the RESULT depends on
+    the environment is decided by the environment sweep; a drift here widens that sweep."""
+    entries = [("sha2pc", f) for f in ("GarblerRound1", "EvaluatorRound2", "GarblerRound3", "EvaluatorRound4")]
+    src = "".join(vlib.strip_go_comments(vlib.repo_file("sha2pc/" + f)) for f in ("garbler.go", "evaluator.go"))
+    entries += [("ot", f) for f in sorted(set(re.findall(r"\bot\.([A-Z]\w*)\(", src)))]
+    entries += [("circuit", "Circuit." + m) for m in ("Garble", "Eval") if re.search(r"\.%s\(" % m, src)]
+    got = {}
+    for pkg, fn in entries:
+        seq = ctx.callseq(pkg, fn, methods=ENV_METHODS)
+        if isinstance(seq, str) and "not found" in seq:
+            continue        # a type conversion / composite literal, not a function
+        if seq:
+            got["%s.%s" % (pkg, fn)] = seq
+    ctx.advise("environment-sensitive calls reachable from the sha2pc round functions (runtime.GOMAXPROCS/NumCPU, WaitGroup, "
+               "sync.Pool, locks): only the garbler's pooled scratch",
+               got, {"circuit.Circuit.Garble": ["?.Get", "?.Put", "?.Put", "?.Put", "?.Put"]})
+    text = {}
+    for d in ("sha2pc", "ot", "circuit"):
+        try:
+            names = sorted(os.listdir(os.path.join(vlib.REPO, d)))
+        except OSError:
+            names = []
+        for n in names:
+            if not n.endswith(".go") or n.endswith("_test.go"):
+                continue
+            hits = sorted(set(re.sub(r"\s+", " ", m.group(0).strip()) for m in
+                              ENV_TEXT.finditer(vlib.strip_go_comments(vlib.repo_file(d + "/" + n)))))
+            if hits:
+                text[d + "/" + n] = hits
+    ctx.advise("go statements, runtime.*, sync.*, os.Getenv, word-size constants, channels in sha2pc/, ot/, circuit/ "
+               "(non-test sources): sync.Pool of the garbler only",
+               text, {"circuit/circuit.go": ["sync.Pool"], "circuit/garble.go": ["sync.Pool"]})
+
+
+def cpu_wrapper(ctx, n_cpus):
+    """A launcher that runs the harness confined to the first `n_cpus` CPUs this process may use (taskset):
+    runtime.NumCPU() of the child is n_cpus.  None when that is not possible here."""
+    ts = shutil.which("taskset")
+    try:
+        cpus = sorted(os.sched_getaffinity(0))
+    except AttributeError:
+        cpus = []
+    if not ts or len(cpus) < n_cpus or not ctx.hx:
+        return None
+    path = os.path.join(ctx.work, "hx-cpus%d.sh" % n_cpus)
+    with open(path, "w") as f:
+        f.write("#!/bin/sh\nexec %s -c %s %s \"$@\"\n" % (ts, ",".join(str(c) for c in cpus[:n_cpus]), ctx.hx))
+    os.chmod(path, 0o755)
+    return path
+
+
+def replay_exact(ctx):
+    """`bin/check C18 --replay F`: when F holds one env-mode history (curves, inputs, tapes, the schedule with the
+    environment of every step), run exactly that history on the real code before the seeded run that regenerates it."""
+    if "--replay" not in sys.argv:
+        return
+    try:
+        rp = sys.argv[sys.argv.index("--replay") + 1]
+        rp = rp if os.path.isabs(rp) else os.path.join(vlib.VERIF, rp)
+        f = json.load(open(rp)).get("failure") or {}
+    except Exception:
+        return
+    if (f.get("replay") or {}).get("mode") != "env":
+        return
+    # in a process with the recorded number of CPUs
+    m = re.search(r"NumCPU=(\d+)", str(f.get("process_environment", "")))
+    exe = ctx.hx
+    if m and int(m.group(1)) != len(os.sched_getaffinity(0)):
+        exe = cpu_wrapper(ctx, int(m.group(1))) or ctx.hx
+    rc, log = vlib.sh([exe, "replay", rp], env=vlib.GOENV, timeout=900)
+    print("replayed the recorded history of %s (%s, step %s under %s):\n%s" % (
+        os.path.basename(rp), f.get("sig"), f.get("event"), f.get("env_of_step"), vlib.indent(log[-3000:])))
+    if rc == 1:
+        g = dict(f)
+        g["found_by"] = "exact replay of " + os.path.basename(rp)
+        ctx.fails.append(g)
 
 
 def const_exprs(*srcs):
@@ -193,7 +301,7 @@ def need(ctx, what, names):
 
 def distinct(ctx, ops):
     for line in open(ops, errors="replace"):
-        if line.startswith(("dec ", "ceval ", "encR1 ", "encGS ", "hist ")):
+        if line.startswith(("dec ", "ceval ", "encR1 ", "encGS ", "hist ", "histe ")):
             ctx.distinct.add(hashlib.sha1(line.encode()).digest())
 
 
@@ -206,6 +314,7 @@ def run(ctx):
     quick = ctx.tier == "quick"
     repo = ["-repo", vlib.REPO]
     if ctx.build_hx():
+        replay_exact(ctx)
         seeds = [ctx.seed] if quick else [ctx.seed, ctx.seed + 1000, ctx.seed + 2000]
         jobs = []
         # 1. the embedded circuit against crypto/sha256 (validation) and against the Lean evaluator
@@ -221,15 +330,43 @@ def run(ctx):
         for s in ((ctx.seed, ctx.seed + 500) if quick else (ctx.seed, ctx.seed + 500, ctx.seed + 1000, ctx.seed + 1500)):
             jobs.append(("hist", 8 if quick else 24, s, "", [],
                          "histories of several sessions in one process, failing steps included: status and state after every step = Proc.runD (seed %d)" % s))
-        # 3. codec: structured payloads and mutation fuzz of every encoded message, one shard per curve
-        for s in seeds:
-            for cv in CURVES:
+        # 2c. THE ENVIRONMENT: one session per curve under every GOMAXPROCS of the sweep x collector settings (plain /
+        # restart at every boundary), histories of interleaved sessions with failing steps whose every step runs in its
+        # own environment; the model ignores the environment (Proc.runE of the constant family)
+        wide = [] if quick else ["wide"]
+        for s in (seeds[:1] if quick else seeds[:2]):
+            for shard in ("P-224,P-256", "P-384", "P-521"):
+                jobs.append(("env", 0, s, "-" + shard, ["-extra", ",".join([shard] + wide)],
+                             "environment sweep %s: status and state after every step under every GOMAXPROCS / collector "
+                             "setting = Proc.runE of the model, which has no environment parameter (seed %d)" % (shard, s)))
+            jobs.append(("env", 4 if quick else 16, s, "-mixed", ["-extra", ",".join(["mixed"] + wide)],
+                         "histories with a different environment at every step = Proc.runE (seed %d)" % s))
+        # 3. codec: structured payloads and mutation fuzz of every encoded message, one shard per curve; every shard
+        # process in another environment (GOMAXPROCS of the child process; recorded in every failure)
+        for si, s in enumerate(seeds):
+            for ci, cv in enumerate(CURVES):
                 jobs.append(("codec", 60 if quick else 300, s, "-" + cv, ["-extra", cv],
-                             "decoder outcome classes on mutated messages, %s (seed %d)" % (cv, s)))
+                             "decoder outcome classes on mutated messages, %s (seed %d)" % (cv, s),
+                             {"GOMAXPROCS": str([3, 5, 7, 12, 1, 24, 61, 2][(ci + 4 * si + ctx.seed) % 8])}))
+        # 2d. THE NUMBER OF CPUs of the process (runtime.NumCPU is fixed at process start by the affinity mask; the
+        # default GOMAXPROCS follows it): the environment sweep again in child processes confined to 3 / 5 / 7 CPUs
+        for n_cpus in ([[3, 5, 7][ctx.seed % 3]] if quick else [3, 5, 7]):
+            w = cpu_wrapper(ctx, n_cpus)
+            if w:
+                jobs.append(("env", 2 if quick else 4, ctx.seed, "-cpus%d" % n_cpus,
+                             ["-extra", "P-256,mixed" if quick else "P-224,P-256,P-384,mixed"],
+                             "environment sweep in a process confined to %d CPUs (NumCPU = %d) = Proc.runE (seed %d)" % (
+                                 n_cpus, n_cpus, ctx.seed), None, w, "cpus%d_" % n_cpus))
+        if not quick:
+            # a second proto run of the first seed's sessions in a narrow, odd environment with an eager collector
+            jobs.append(("proto", 6, seeds[0], "-env", [], "real payloads of full sessions, all curves, GOMAXPROCS=3 GOGC=1 "
+                         "(seed %d)" % seeds[0], {"GOMAXPROCS": "3", "GOGC": "1"}))
 
         def one(job):
-            mode, n, seed, tag, extra, what = job
-            ops, out, meta = ctx.run_hx(mode, n, seed=seed, tag=tag, extra_args=repo + extra, timeout=2400)
+            mode, n, seed, tag, extra, what = job[:6]
+            penv = job[6] if len(job) > 6 else None
+            ops, out, meta = ctx.run_hx(mode, n, seed=seed, tag=tag, extra_args=repo + extra, timeout=2400, env=penv,
+                                        binary=job[7] if len(job) > 7 else None)
             model, rc = ctx.run_drv(ops)     # the model replay runs in the worker too
             return job, ops, out, meta, model, rc
 
@@ -237,7 +374,7 @@ def run(ctx):
             results = list(ex.map(one, jobs))
         run_drv = ctx.run_drv
         for job, ops, out, meta, model, rc in results:
-            ctx.absorb_meta(meta)
+            ctx.absorb_meta(meta, prefix=job[8] if len(job) > 8 else "")
             # vlib's correspond() with the replay that was already computed
             ctx.run_drv = lambda _ops, timeout=3000, _m=model, _rc=rc: (_m, _rc)
             try:
@@ -248,6 +385,7 @@ def run(ctx):
             if job[0] == "circuit":
                 ctx.coverage["embedded_circuit"] = meta.get("circuit")
         source_facts(ctx, ctx.coverage.get("counters", {}))
+        env_probe(ctx)
         need(ctx, "codec", NEED_CODEC)
         c = ctx.coverage.get("counters", {})
         seen = [n for n in FORBID_CODEC if c.get(n)] + [n for n in c if n.startswith("accepted_noncanonical_")]
@@ -255,6 +393,40 @@ def run(ctx):
                    not seen, "occurred: %s" % seen)
         need(ctx, "proto", NEED_PROTO)
         need(ctx, "history", NEED_HIST)
+        # THE TIE OF THE ENVIRONMENT ASSUMPTION (Props/C18.lean (G), `EnvCfg.AgreesOn`): under every environment of the
+        # sweep a complete session per curve gave the isolated run's values and the right digest, and no step of any
+        # environment history disagreed with the environment-free model (oracle c18-env-*, correspondence `histe`)
+        c = ctx.coverage.get("counters", {})
+        missing = [n for n in NEED_ENV if not c.get(n)]
+        envfails = [f for f in ctx.fails if str(f.get("sig", "")).startswith("c18-env") or
+                    str(f.get("class", "")).startswith("env-")]
+        missing += [n for n in ("cpus%d_oracle_fail" % k for k in (3, 5, 7)) if c.get(n)]
+        ctx.oblige("ASSUMPTION TIE: the real round functions are environment independent on the sweep -- one complete "
+                   "four-round session per curve under GOMAXPROCS in %s, collector off / 100 / 1, plain and with a restart at "
+                   "every boundary, and histories whose environment changes between the steps: every status, every value, "
+                   "every digest as in the reference environment (%d classes)" % (ENV_PROCS, len(NEED_ENV)),
+                   not missing and not envfails,
+                   "never completed: %s; environment-dependent outcomes: %d (first: %s)" % (
+                       missing, len(envfails), json.dumps({k: v for k, v in (envfails[0] if envfails else {}).items()
+                                                           if k != "replay"})[:700]))
+        ncpu = sorted(int(k[4:].split("_")[0]) for k in c if k.startswith("cpus") and k.endswith("_env_steps"))
+        have_ts = bool(shutil.which("taskset"))
+        ctx.oblige("environment sweep also run in a child process confined to fewer CPUs (runtime.NumCPU = 3 / 5 / 7; skipped and "
+                   "recorded when taskset is not available), complete sessions there",
+                   not have_ts or bool(ncpu and all(c.get("cpus%d_env_session_complete_plain" % n, 0) +
+                                                    c.get("cpus%d_env_session_complete_restart-everywhere" % n, 0) > 0
+                                                    for n in ncpu)),
+                   "taskset available: %s; NumCPU values run: %s" % (have_ts, ncpu))
+        ctx.coverage["environments"] = {
+            "num_cpu_of_child_processes": ncpu + [len(os.sched_getaffinity(0))],
+            "procs_swept": sorted(int(k.split("_")[-1]) for k in c if k.startswith("env_step_procs_")),
+            "gc_swept": sorted(int(k.split("_")[-1]) for k in c if k.startswith("env_step_gc_")),
+            "word_bits": 64, "steps_run_under_a_set_environment": c.get("env_steps", 0)}
+        if ctx.widen:
+            # a drifted probe / broken obligation: the environment sweep with many more scheduler widths, all curves
+            ops, out, meta = ctx.run_hx("env", 8, seed=ctx.seed + 7000, tag="-widen", extra_args=repo + ["-extra", "wide"],
+                                        timeout=2400)
+            ctx.absorb_meta(meta, prefix="widen_")
         if ctx.widen:
             # widened search for a concrete failing input
             for s in range(ctx.seed + 7000, ctx.seed + 7003):
@@ -287,7 +459,18 @@ def run(ctx):
         "after EVERY step the deep hash of every live message/session object of every session is compared with its "
         "production-time value, with the isolated run of the same session and (correspondence) with Proc.run of the "
         "model (Proc.runD: a step that fails leaves the whole process state as it was, its status is err). "
-        "distinct = distinct dec/enc/ceval/hist op lines")
+        "env: per curve one session (seeded inputs and tapes; reference values from its isolated run under GOMAXPROCS=1, "
+        "collector off) run start to finish -- rounds 1,2,3,4 (+ round 4 again on the fast curves), all in memory or all "
+        "through bytes -- under GOMAXPROCS in {1,2,3,5,7,12,16,24,61} (thorough / widened: 20 more values up to 300) with the "
+        "collector off / 100 / 1 in rotation; 4 (thorough 16) histories of 2..3 interleaved sessions with failing steps as in "
+        "hist, EVERY step under its own seeded environment (GOMAXPROCS and collector set around the step, restored "
+        "afterwards: the environment changes between any two rounds); same oracle as hist (signatures c18-env-*), op "
+        "`histe` = Proc.runE of the constant family; the replay of a failure is exactly that history (`c18 replay`). The "
+        "The sweep of P-256 (thorough: P-224/256/384) and 2 (4) mixed histories run once more in a child process confined to "
+        "3 / 5 / 7 CPUs with taskset (runtime.NumCPU, fixed at process start, = 3 / 5 / 7; quick: one of them by seed). The "
+        "codec shards run as child processes under GOMAXPROCS 3/5/7/12/1/24/61/2 in rotation, thorough adds a proto run "
+        "under GOMAXPROCS=3 GOGC=1 (environment recorded in every failure). "
+        "distinct = distinct dec/enc/ceval/hist/histe op lines")
     ctx.assumptions += [
         "point decompression (elliptic.UnmarshalCompressed) is an abstract function in the theorems (round-2 canonicity "
         "assumes it returns the requested parity); the driver instantiates it with y^2 = x^3 - 3x + b over the four NIST "
@@ -299,6 +482,16 @@ def run(ctx):
         "histories: the model's rounds are PURE functions, so frame/isolation hold in the model by construction; that "
         "the real process behaves so is decided on the sampled histories (single goroutine; the values a session "
         "produces alone are the model's round-function table, compared as deep hashes of all reachable fields)",
+        "ENVIRONMENT: the model's round functions are functions of (inputs, randomness, messages) only "
+        "(C18_env_model_has_no_parameter); that the real round functions compute the same in every execution environment "
+        "(EnvCfg.AgreesOn, hypothesis of C18_env_correct_partial) is an ASSUMPTION, tied on every run by the environment "
+        "sweep (GOMAXPROCS 1..61 / up to 300 when widened, collector off/100/1, per step; runtime.NumCPU 3/5/7/16 per child "
+        "process) and watched by the structural "
+        "probe (no runtime.GOMAXPROCS / NumCPU / go statement reachable from the rounds; sync.Pool of the garbler only). "
+        "Not varied: the word size (the repository does not compile for GOARCH=386: p2p/network.go connMagicMask overflows "
+        "int), GOOS, GOAMD64 level / assembly vs generic crypto code paths, GODEBUG settings, memory limits; proto, hist "
+        "and circuit modes run in ONE environment (proto: the machine's CPU count, hist: GOMAXPROCS=1 with the collector "
+        "off so that pooled-memory reuse is deterministic)",
         "failing random source: the Lean round functions take the drawn values as arguments, so `a round whose source "
         "fails returns an error` is the DEFINITION of the model's x1/x2/x3 (every read in GarblerRound1/3, "
         "EvaluatorRound2, GenerateCOSenderSetup, BuildCOChoices, Circuit.Garble, ot.NewLabel is followed by an error "
@@ -330,7 +523,12 @@ def run(ctx):
         "every session whose undisturbed steps are rounds 1,2,3,4+ ends -- whatever failed in between, its own rounds "
         "included (retry) -- with the values of its isolated run and the circuit's function of its own inputs; for the "
         "sha2pc rounds a failing source and a cut/extended message fail in every state, a foreign message/state fails "
-        "when the session ids differ. Tie: real Encode*/Decode* vs the Lean model on real and mutated payloads of "
+        "when the session ids differ. ENVIRONMENT: the model's rounds have no environment parameter; for every implementation "
+        "indexed by the environment (GOMAXPROCS, collector, word size) that agrees with the model in the environments of a "
+        "history, the history with a different environment at every step is the environment-free history, so every complete "
+        "session ends with the circuit's function of its inputs; the agreement is an assumption, needed (witness: work "
+        "split over `procs` workers with the remainder dropped is right exactly when procs divides the batch) and tied by "
+        "the environment sweep on the real code. Tie: real Encode*/Decode* vs the Lean model on real and mutated payloads of "
         "P-224/256/384/521, outcome ok(fields, re-encoding)|err|panic compared line by line; source facts require the five "
         "repairs 0e7671a/68f93f2/d9a1171/2eb87d5/217fb4c. Oracle on the real code: digest = sha256(a xor b); restart through "
         "Encode/Decode at every boundary gives byte-identical downstream messages and the same digest; decoders and "
